@@ -16,67 +16,6 @@ Section Bool.
   Qed.
 End Bool.
 
-Lemma contrib_eqb_spec : forall a b, contrib_eqb a b = true <-> a = b.
-Proof.
-  intros [a1 a2 a3 a4 a5 a6] [b1 b2 b3 b4 b5 b6]. unfold contrib_eqb. cbn.
-  rewrite !andb_true_iff, !N.eqb_eq, !sg_eqb_spec. split.
-  - intros [[[[[-> ->] ->] ->] ->] ->]. reflexivity.
-  - intros H. injection H as -> -> -> -> -> ->. auto 10.
-Qed.
-
-Lemma pairN_eqb_spec' : forall x y : N * N, pairN_eqb x y = true <-> x = y.
-Proof. apply pairN_eqb_spec. Qed.
-
-(* -------------------------------------------------------------------------------------------- *)
-(* the check's helper functions are the model's *)
-
-Lemma positions_of_last_duty : forall ds v, positions_of ds v = last_duty ds v.
-Proof. induction ds as [|d ds IH]; intros v; cbn; [reflexivity|]. rewrite IH. reflexivity. Qed.
-
-Lemma hash_of_lookup3 : forall t x, hash_of t x = lookup3 t (fst x) (snd x).
-Proof.
-  induction t as [|[[v c] h] t IH]; intros x; cbn; [reflexivity|]. rewrite IH.
-  rewrite (N.eqb_sym v), (N.eqb_sym c). reflexivity.
-Qed.
-
-Lemma spec_selected_selected : forall p f x, spec_selected p f x = selected p f x.
-Proof. intros. unfold spec_selected, selected, is_aggregator, modulo. rewrite hash_of_lookup3. reflexivity. Qed.
-
-Lemma held_has_account : forall i v, held i v = has_account i v.
-Proof. reflexivity. Qed.
-
-Lemma signers_spec : forall i ds v, si_duties i = Some ds ->
-  (In v (signers (members i) (has_account i)) <-> In v (spec_signers i ds)).
-Proof.
-  intros i ds v H. rewrite signers_In, spec_signers_In, members_keys, has_account_spec.
-  unfold holds_account. rewrite H. split.
-  - intros ((ds' & Heq & Hin) & Ha). injection Heq as <-. auto.
-  - intros (Hin & Ha). eauto.
-Qed.
-
-Lemma pairs_spec : forall p i ds x, si_duties i = Some ds ->
-  (In x (sel_pairs p (members i) (has_account i)) <-> In x (spec_pairs p i ds)).
-Proof.
-  intros p i ds x H. rewrite sel_pairs_In. unfold spec_pairs. rewrite in_flat_map. split.
-  - intros ([v ps] & pos & Hm & Ha & Hp & ->). cbn [fst snd] in *.
-    exists v. split.
-    + apply (signers_spec i ds v H). apply signers_In. split; [apply (in_map fst) in Hm; exact Hm | exact Ha].
-    + unfold members in Hm. rewrite H in Hm. apply message_indices_In in Hm.
-      rewrite positions_of_last_duty, Hm. apply in_map_iff. exists pos. auto.
-  - intros (v & Hv & Hin). apply (signers_spec i ds v H), signers_In in Hv. destruct Hv as (_ & Ha).
-    rewrite positions_of_last_duty in Hin. destruct (last_duty ds v) as [ps|] eqn:E; [|destruct Hin].
-    apply in_map_iff in Hin. destruct Hin as (pos & <- & Hp).
-    exists (v, ps), pos. cbn [fst snd]. repeat split; auto.
-    unfold members. rewrite H. apply message_indices_In. exact E.
-Qed.
-
-Lemma nil_iff : forall (A : Type) (l l' : list A), (forall x, In x l <-> In x l') -> (l = [] <-> l' = []).
-Proof.
-  intros A l l' H. split; intros ->.
-  - destruct l' as [|y l']; [reflexivity|]. destruct (proj2 (H y)); left; reflexivity.
-  - destruct l as [|y l]; [reflexivity|]. destruct (proj1 (H y)); left; reflexivity.
-Qed.
-
 (* -------------------------------------------------------------------------------------------- *)
 (* the job table *)
 
@@ -120,8 +59,6 @@ Proof.
   right. exists r. auto.
 Qed.
 
-Lemma inbN_false : forall x l, inb N.eqb x l = false <-> ~ In x l.
-Proof. intros x l. rewrite <- inbN_In. destruct (inb N.eqb x l); split; congruence. Qed.
 
 Section Fire.
   Variables (p : params) (i : sched_in) (ds : list duty) (f : fire_in).
